@@ -80,6 +80,33 @@ def perturb_prior(rng, L, root):
             with open(fp, 'wb') as f:
                 f.write(fm.compress(b'', comp))
         out.append({'prior': 'unregistered_' + kind, 'p': mp})
+        if kind == 'valid' and rng.random() < 0.3 and os.path.isfile(os.path.join(root, 'Manifest')):
+            # ... that the top-level Manifest lists as a plain file
+            with open(fp, 'rb') as f:
+                raw = f.read()
+            with open(os.path.join(root, 'Manifest'), 'ab') as f:
+                f.write(fm.manifest_bytes([fm.make_entry('DATA', mp, raw, ['SHA256'])]))
+            out[-1]['prior'] = 'unregistered_valid_listed_as_data'
+        elif kind == 'valid' and comp == 'plain' and rng.random() < 0.4:
+            # ... and reachable only through a second unregistered Manifest of the same directory
+            with open(fp, 'rb') as f:
+                raw = f.read()
+            c2 = rng.choice(['gz', 'bz2', 'xz'])
+            with open(fp + '.' + c2, 'wb') as f:
+                f.write(fm.manifest_bytes([fm.make_entry('MANIFEST', 'Manifest', raw, ['SHA256'])], c2))
+            out[-1]['prior'] = 'unregistered_pair'
+    if rng.random() < 0.12 and os.path.isfile(os.path.join(root, 'Manifest')):
+        # a sub-Manifest listed as plain DATA as well, right BEFORE its MANIFEST line (whatever follows
+        # that line - often an entry the edits below make stale - must still be seen by the update)
+        with open(os.path.join(root, 'Manifest'), 'rb') as f:
+            lines = f.read().decode('utf8').split('\n')
+        idxs = [i for i, ln in enumerate(lines) if ln.startswith('MANIFEST ')]
+        if idxs:
+            i = rng.choice(idxs)
+            lines.insert(i, rng.choice(['DATA', 'DATA', 'EBUILD']) + lines[i][len('MANIFEST'):])
+            with open(os.path.join(root, 'Manifest'), 'wb') as f:
+                f.write('\n'.join(lines).encode('utf8'))
+            out.append({'prior': 'manifest_also_data', 'p': lines[i].split(' ')[1]})
     if rng.random() < 0.06 and os.path.isfile(os.path.join(root, 'Manifest')):
         # the top-level Manifest lists itself: no entry for it can ever be right, the update has to drop it
         with open(os.path.join(root, 'Manifest'), 'ab') as f:
@@ -294,8 +321,27 @@ def one_update(args):
     root = tlc.scratch_dir('vu')
     try:
         L = gen.random_layout(rng, links=(rng.random() < 0.3))
+        twin = None
+        if rng.random() < 0.08:
+            # two Manifests of one logical name in a directory, both in use (Manifest and Manifest.gz):
+            # (de)compressing one must not overwrite the other
+            mp = rng.choice(sorted(m for m in L.mf if 'extra' not in m))
+            base_ = mp[:-len(fm.compression_of(mp)) - 1] if fm.compression_of(mp) != 'plain' else mp
+            others = [c for c in gen.COMPS if (base_ if c == 'plain' else base_ + '.' + c) not in L.mf]
+            if others:
+                c = rng.choice(others)
+                newmp = base_ if c == 'plain' else base_ + '.' + c
+                # it takes over some of the entries (or stays empty)
+                take = [e for e in L.mf[mp] if e['tag'] in ('DATA', 'MISC', 'IGNORE') and rng.random() < 0.5]
+                L.mf[mp] = [e for e in L.mf[mp] if not any(e is t for t in take)]
+                L.mf[newmp] = take
+                par = mp if mp == 'Manifest' else [g for g in L.governing(mp) if L.mdir(g) != L.mdir(mp)][0]
+                L.mf[par].append({'tag': 'MANIFEST', 'path': L.rel(newmp, par), 'size': 0, 'ck': {'SHA256': ''}, 'ref': newmp})
+                twin = newmp
         L.write(root)
         prior = perturb_prior(rng, L, root)
+        if twin:
+            prior.append({'prior': 'twin_manifest', 'p': twin})
         edits = []
         for _ in range(rng.choice([0, 1, 1, 2, 3])):
             m = gen.mutate(rng, L, root, kind=rng.choice(EDITS))
@@ -304,6 +350,30 @@ def one_update(args):
         dirs = [d for d in L.dirs if os.path.isdir(os.path.join(root, d))
                 and not any(c.startswith('.') for c in d.split('/'))]
         sub = '' if rng.random() < 0.7 or len(dirs) < 2 else rng.choice(dirs[1:])
+        deep = [d for d in dirs if d.count('/') >= 1 and any(
+            m != 'Manifest' and os.path.dirname(m) and (d + '/').startswith(os.path.dirname(m) + '/')
+            and os.path.dirname(m) != d for m in L.mf)]
+        if sub and deep and rng.random() < 0.5:
+            sub = rng.choice(deep)          # a directory below another sub-Manifest: there is a chain above it
+        if sub and rng.random() < 0.6:
+            # a reference that is ALREADY stale on the chain above the directory to be updated: a Manifest in a
+            # proper ancestor directory was changed (one more DIST line) without its parent being told
+            chain = [m for m in sorted(L.mf) if m != 'Manifest' and 'extra' not in m
+                     and os.path.isfile(os.path.join(root, m))
+                     and os.path.dirname(m) != sub and (sub + '/').startswith(os.path.dirname(m) + '/')]
+            if chain:
+                m = rng.choice(chain)
+                c = fm.compression_of(m)
+                try:
+                    with open(os.path.join(root, m), 'rb') as f:
+                        text = fm.decompress(f.read(), c)
+                    if not text.startswith(b'-----'):
+                        text += b'DIST stale-chain.tar 1 SHA256 ' + b'0' * 64 + b'\n'
+                        with open(os.path.join(root, m), 'wb') as f:
+                            f.write(fm.compress(text, c))
+                        prior.append({'prior': 'stale_chain_above', 'p': m})
+                except Exception:  # noqa
+                    pass
         sizes = []
         for m in L.mf:
             fp = os.path.join(root, m)
@@ -636,6 +706,60 @@ def lookalike_update(args):
         if sort:
             recs.append({'kind': 'canon', 'variants': variants, 'descr': ['ascending walk', 'descending walk'],
                          'meta': {'seed': seed, 'idx': idx, 'lookalike': [short, long_], 'sub': sub}})
+        return recs
+    finally:
+        shutil.rmtree(base, ignore_errors=True)
+
+
+def watermark_window(args):
+    """Directed family for C13's watermark rule: the watermark is placed exactly around the size the
+    rewritten sub-Manifest is going to have - counted in BYTES of its uncompressed text, which for
+    non-ASCII paths differs from the number of characters."""
+    seed, idx, o = args
+    from . import gem
+    rng = random.Random('wmwin-%d-%d' % (seed, idx))
+    base = tlc.scratch_dir('vww')
+    try:
+        L = gen.Layout(rng)
+        L.dirs = ['', 'sub']
+        comp = rng.choice(gen.COMPS)
+        smf = 'sub/Manifest' + ('' if comp == 'plain' else '.' + comp)
+        L.mf['Manifest'] = []
+        L.mf[smf] = []
+        hs = rng.choice(HASHSETS)
+        names = rng.sample(['żółć', 'Ünï', '😀', 'naïve-π.txt', 'плюс', 'a', 'b.txt', '日本'], rng.randrange(2, 6))
+        for n in names:
+            p = 'sub/' + n
+            L.files[p] = ('content of ' + n).encode('utf8')
+            L.add_file_entry(smf, p, L.files[p], 'DATA', hs)
+        L.files['top.txt'] = b'top'
+        L.add_file_entry('Manifest', 'top.txt', b'top', 'DATA', hs)
+        L.mf['Manifest'].append({'tag': 'MANIFEST', 'path': smf, 'size': 0, 'ck': {'SHA256': ''}, 'ref': smf})
+        src = os.path.join(base, 'src')
+        os.mkdir(src)
+        L.write(src)
+        # what the sub-Manifest is going to look like
+        probe = os.path.join(base, 'probe')
+        shutil.copytree(src, probe, symlinks=True)
+        obs, ld = gem.call(gem.loader, os.path.join(probe, 'Manifest'), hashes=list(hs))
+        if obs['end'] == 'ok':
+            obs, _ = gem.call(ld.update_entries_for_directory, '')
+        if obs['end'] == 'ok':
+            obs, _ = gem.call(ld.save_manifests, force=True)
+        if obs['end'] != 'ok':
+            return []
+        with open(os.path.join(probe, smf), 'rb') as f:
+            text = fm.decompress(f.read(), comp).decode('utf8')
+        nbytes, nchars = len(text.encode('utf8')), len(text)
+        recs = []
+        wms = sorted(set([nchars - 1, nchars, nchars + 1, nbytes - 1, nbytes, nbytes + 1, (nchars + nbytes) // 2]))
+        for k, wm in enumerate(rng.sample(wms, min(len(wms), 4))):
+            dst = os.path.join(base, 'w%d' % k)
+            shutil.copytree(src, dst, symlinks=True)
+            opts = {'hashes': hs, 'sub': '', 'sort': None, 'force': True, 'wm': max(wm, 0),
+                    'fmt': rng.choice(['gz', 'bz2', 'xz', 'lzma']), 'profile': 'default', 'extra_round': False}
+            recs += run_history(dst, L, rng, fm.Namer(), opts,
+                                {'seed': seed, 'idx': idx, 'wmwin': [nchars, nbytes, wm], 'prior': [], 'edits': []})
         return recs
     finally:
         shutil.rmtree(base, ignore_errors=True)
